@@ -24,6 +24,7 @@ type Obligation struct {
 	Hyps       []*Term
 	Goal       *Term
 	ExtraDecl  []*Term // terms whose symbols must be declared too (model queries)
+	NoConfirm  bool    // thorough tier: decided once (clause checked in addition to the tagged ones)
 	Harness    string  // bounded_exec: name of the harness under /verif/bounded
 	BoundedCmd string
 	BoundedSrc string
@@ -255,11 +256,12 @@ func batchDecide(batch []*Obligation, dir string, id int) {
 func decideAll(obls []*Obligation, timeoutS int, workers int, confirm bool) (solverMs map[string]int64) {
 	dir, _ := os.MkdirTemp("", "gvc-smt-")
 	defer os.RemoveAll(dir)
-	if !confirm {
-		// fast path: batches of plain validity obligations
+	{
+		// fast path: batches of plain validity obligations (in the thorough tier only
+		// for the clauses that are checked in addition to the tagged ones)
 		var plain []*Obligation
 		for _, o := range obls {
-			if !o.WantSat && o.RawSMT == "" && o.Prelude == "" && !hasRegex(o) {
+			if (!confirm || o.NoConfirm) && !o.WantSat && o.RawSMT == "" && o.Prelude == "" && !hasRegex(o) {
 				plain = append(plain, o)
 			}
 		}
@@ -292,7 +294,7 @@ func decideAll(obls []*Obligation, timeoutS int, workers int, confirm bool) (sol
 		go func() {
 			defer wg.Done()
 			for i := range ch {
-				decide(obls[i], dir, i, timeoutS, confirm)
+				decide(obls[i], dir, i, timeoutS, confirm && !obls[i].NoConfirm)
 			}
 		}()
 	}
